@@ -1,15 +1,29 @@
 import Driver.Sub.Hypervolume
 import OptunaVerif.Generated.HvMethods
 import OptunaVerif.Generated.HsspMethods
+import OptunaVerif.Generated.RankMethods
 /-! Sub-driver `hvgen`: the protocol of `hypervolume` (C15), with the interpreters of the IR GENERATED from `optuna/_hypervolume/wfg.py`
 (`Generated/HvMethods.lean`, `Model/HvIR.lean`) run side by side with the hand model.  Answers of `hv` and `hvfin` carry `"gen"`:
 `null` when the generated `compute_hypervolume` (hence `_compute_2d` / `_compute_hv` / `_compute_exclusive_hv`) agrees with the hand model
-on this input, else both answers.  (`front`, `rank`, `hssp` are passed through: no interpreter for them.) -/
+on this input, else both answers.  `rank` / `calcrank`: the interpreters of the generated `_fast_non_domination_rank` (calling the generated
+`_calculate_nondomination_rank`, `_is_pareto_front(·, True)` = the hand model's `frontSorted`, loop bound `n_unique`) / of the generated
+`_calculate_nondomination_rank` against `Rank.fastRank` / `Rank.calcRank`.  (`front` is passed through.) -/
 open Lean
 namespace Driver.Sub.HvGen
 open OptunaVerif OptunaVerif.Hypervolume OptunaVerif.HvIR Driver Driver.Sub.Hypervolume
 open OptunaVerif.Generated.HvMethods (prog)
 open OptunaVerif.HsspIR OptunaVerif.Hssp
+
+def frontH : Nat → List Pt → List Pt := fun d l => frontSorted id d l
+
+def calcCallee : Nat → List Pt → RankIR.RV → RankIR.RV :=
+  fun d m nb => RankIR.calcGen Generated.RankMethods.prog frontH (uniqueLex m).length d m nb
+
+def rvJson : RankIR.RV → Json
+  | .ints l => Json.arr (l.map (fun (x : Int) => (x : Json))).toArray
+  | .valueError => Json.str "ValueError"
+  | .assertionError => Json.str "AssertionError"
+  | _ => Json.str "err"
 
 def coutJson : COut → Json
   | .out o => Json.mkObj (hvOutJson o)
@@ -52,6 +66,34 @@ def extra (j : Json) : P (Option Json) := do
     let h := Hssp.solveHssp pts k r fin
     return some (if g == SV.idx h then Json.null else
       Json.arr #[Json.mkObj [("method", "_solve_hssp"), ("generated", match g with | .idx l => jNats l | _ => Json.str "err"), ("hand", jNats h)]])
+  | "rank" =>
+    let pts ← parseRows j "pts"
+    let d ← natF j "d"
+    let nb ← match optF j "nb" with
+      | none => pure none
+      | some v => do pure (some (← v.getNat?))
+    let pen ← match optF j "pen" with
+      | none => pure none
+      | some v => do
+        let l ← mapM' (fun x => if x.isNull then pure none else do pure (some (← x.getInt?))) (← v.getArr?).toList
+        pure (some l)
+    let g := RankIR.fastGen Generated.RankMethods.prog calcCallee d pts
+      (match pen with | none => .none_ | some p => .pen p) (match nb with | none => .none_ | some n => .int n)
+    let h : RankIR.RV := match Rank.fastRank d pts pen nb with
+      | some l => .ints (l.map Int.ofNat)
+      | none => .valueError
+    return some (if g == h then Json.null else
+      Json.arr #[Json.mkObj [("method", "_fast_non_domination_rank"), ("generated", rvJson g), ("hand", rvJson h)]])
+  | "calcrank" =>
+    let pts ← parseRows j "pts"
+    let d ← natF j "d"
+    let nb ← match optF j "nb" with
+      | none => pure none
+      | some v => do pure (some (← v.getInt?))
+    let g := RankIR.calcGen Generated.RankMethods.prog frontH (uniqueLex pts).length d pts (match nb with | none => .none_ | some n => .int n)
+    let h : RankIR.RV := .ints ((Rank.calcRank d pts nb).map Int.ofNat)
+    return some (if g == h then Json.null else
+      Json.arr #[Json.mkObj [("method", "_calculate_nondomination_rank"), ("generated", rvJson g), ("hand", rvJson h)]])
   | _ => return none
 
 def main : IO Unit :=
